@@ -282,6 +282,7 @@ func NetDial(network, path string) (net.Conn, error) {
 	}
 	c1, c2 := net.Pipe()
 	srv := &simConn{Conn: c2, s: s}
+	RegisterStable(net.Conn(srv)) // connections are map keys in the daemon: creation order is their identity
 	n.mu.Lock()
 	n.srvConns = append(n.srvConns, srvConn{proc: l.proc, c: srv})
 	n.mu.Unlock()
